@@ -235,6 +235,35 @@ def specApply (md : Modes) : ChildOp → Modes
 open VaxisModel.Model.TermInputModes (ChildOp) in
 def specModes (ops : List ChildOp) : Modes := ops.foldl specApply {}
 
+open VaxisModel.Model.TermInputModes (ChildOp ChildSeq) in
+/-- Which of the child's sequences select input modes, by the standard (xterm ctlseqs): `CSI ? Pm h`
+    (DECSET), `CSI ? Pm l` (DECRST), `ESC =` (DECKPAM), `ESC >` (DECKPNM), `ESC c` (RIS).  Nothing else
+    does: ANSI SM / RM (`CSI Pm h` / `CSI Pm l` without `?`) address a different mode space (`CSI 1000 h`
+    is not mouse tracking), prints, cursor movement, erasing, SGR, DECSC / DECRC, OSC / DCS / APC strings
+    and a resize of the window leave the input modes alone.  (DECSTR, `CSI ! p`, would return the cursor
+    keys and the keypad to their normal modes; this emulator does not implement it — it answers DA as a
+    VT220 without soft reset — so it selects nothing here; see notes/C13.md.) -/
+def childOpOf : ChildSeq → Option ChildOp
+  | .csi [63, 104] ps => some (.set ps)
+  | .csi [63, 108] ps => some (.reset ps)
+  | .esc [61] => some .pam
+  | .esc [62] => some .pnm
+  | .esc [99] => some .ris
+  | _ => none
+
+open VaxisModel.Model.TermInputModes (ChildOp) in
+def specStep (md : Modes) : Option ChildOp → Modes
+  | some c => specApply md c
+  | none => md
+
+open VaxisModel.Model.TermInputModes (ChildSeq) in
+/-- The modes the child's stream selected, from `md`. -/
+def specModesFrom (md : Modes) (seqs : List ChildSeq) : Modes := (seqs.filterMap childOpOf).foldl specApply md
+
+open VaxisModel.Model.TermInputModes (ChildSeq) in
+/-- The modes the child's stream selected on a fresh terminal (power-on state). -/
+def specModesOfStream (seqs : List ChildSeq) : Modes := specModesFrom {} seqs
+
 /-- The nine mode bits as a number (bit order of the drivers). -/
 def modesOfNat (n : Nat) : Modes :=
   let b (i : Nat) : Bool := n / 2 ^ i % 2 == 1
